@@ -2,6 +2,10 @@
 namespace SdnsVerif.Gen.C15
 
 def header_len : Nat := 12
+def lib_hroom_violations : Nat := 0
+def lib_mono_violations : Nat := 0
+def lib_sample_messages : Nat := 480
+def lib_sample_records : Nat := 7449
 def libbits_single : List Nat := [0, 32768, 1024, 512, 256, 128, 64, 32, 16, 2048, 4096, 8192, 16384, 32768, 0, 1, 2, 4, 8, 0, 0, 15]
 def max_pooled_compression_entries : Nat := 64
 def msgbits_single : List Nat := [0, 32768, 1024, 512, 256, 128, 64, 32, 16, 2048, 4096, 8192, 16384, 32768, 0, 1, 2, 4, 8, 0, 0, 15]
@@ -12,5 +16,6 @@ def puts_after_ok : Nat := 1
 def puts_after_panic : Nat := 1
 def puts_after_werr : Nat := 1
 def type_opt : Nat := 41
+def write_while_borrowed : Bool := true
 
 end SdnsVerif.Gen.C15
